@@ -29,14 +29,14 @@ import (
 // ---- generated case ------------------------------------------------------------------------------
 
 type VarSpec struct {
-	Kind      string `json:"kind"`  // list | fn | acct
+	Kind      string `json:"kind"`  // list | fn | acct | reg
 	Cells     int    `json:"cells"` // fn: number of indices
 	Wrap      string `json:"wrap"`  // direct | persistent | incmap | incmap+persistent
 	TimeoutMs int    `json:"timeout_ms"`
 }
 
 type Op struct {
-	K  string `json:"k"` // r: read cell, a: read-then-append, t: transfer V->V2 by D, s: read every account
+	K  string `json:"k"` // r: read cell, a: read-then-append, w: blind write of a unique id (reg), t: transfer V->V2 by D, s: read every account
 	V  int    `json:"v"`
 	J  int    `json:"j,omitempty"`
 	V2 int    `json:"v2,omitempty"`
@@ -83,9 +83,11 @@ func genCase(seed int64, idx int, mode string, thorough bool) Case {
 		vs := VarSpec{Kind: kindList, Cells: 1, TimeoutMs: base}
 		if v < c.NAcct {
 			vs.Kind = kindAcct
-		} else if rng.Intn(10) < 4 {
+		} else if x := rng.Intn(20); x < 7 {
 			vs.Kind = "fn"
 			vs.Cells = 2 + rng.Intn(3)
+		} else if x < 11 {
+			vs.Kind = kindReg
 		}
 		switch x := rng.Intn(100); {
 		case x < 40:
@@ -105,32 +107,32 @@ func genCase(seed int64, idx int, mode string, thorough bool) Case {
 		}
 		c.Vars = append(c.Vars, vs)
 	}
-	total := 2000
+	total := 320
 	switch {
 	case maxTO > 20:
-		total = 300
+		total = 72
 	case maxTO > 5:
-		total = 800
+		total = 160
 	}
 	if mode == "race" {
 		total /= 4
 	}
 	per := total / c.NCtx
-	if per < 20 {
-		per = 20
+	if per < 12 {
+		per = 12
 	}
 	c.Observer = rng.Intn(4) != 0
 	c.Heavy = rng.Intn(3) == 0
-	if mode == "behav" && rng.Intn(4) == 0 {
+	if mode == "behav" && rng.Intn(6) == 0 {
 		c.Disrupt = []string{"10us", "30us", "80us"}[rng.Intn(3)]
-		per = per * 2 / 3
+		per = per / 3
 	}
 	// list cells
 	type cellRef struct{ v, j int }
 	var lcells []cellRef
 	for v, vs := range c.Vars {
 		switch vs.Kind {
-		case kindList:
+		case kindList, kindReg:
 			lcells = append(lcells, cellRef{v, 0})
 		case "fn":
 			for j := 1; j <= vs.Cells; j++ {
@@ -151,6 +153,9 @@ func genCase(seed int64, idx int, mode string, thorough bool) Case {
 				if len(lcells) > 0 && rng.Intn(3) == 0 {
 					lc := lcells[rng.Intn(len(lcells))]
 					op := Op{K: "a", V: lc.v, J: lc.j}
+					if c.Vars[lc.v].Kind == kindReg {
+						op.K = "w"
+					}
 					if rng.Intn(2) == 0 {
 						s.Ops = append(s.Ops, op)
 					} else {
@@ -184,6 +189,8 @@ func genCase(seed int64, idx int, mode string, thorough bool) Case {
 					k := "a"
 					if readOnly || rng.Intn(10) < 3 {
 						k = "r"
+					} else if c.Vars[lc.v].Kind == kindReg {
+						k = "w"
 					}
 					s.Ops = append(s.Ops, Op{K: k, V: lc.v, J: lc.j})
 				}
@@ -193,7 +200,7 @@ func genCase(seed int64, idx int, mode string, thorough bool) Case {
 				}
 				if rng.Intn(12) == 0 { // second append to a cell already appended to
 					o := s.Ops[rng.Intn(len(s.Ops))]
-					if o.K == "a" {
+					if o.K == "a" || o.K == "w" {
 						s.Ops = append(s.Ops, o)
 					}
 				}
@@ -279,8 +286,11 @@ func (r *faultRes) Commit(distsys.ArchetypeInterface) chan struct{} { return nil
 func (r *faultRes) ReadValue(distsys.ArchetypeInterface) (tla.Value, error) {
 	return tla.ModuleTRUE, nil
 }
-func (r *faultRes) WriteValue(distsys.ArchetypeInterface, tla.Value) error { r.armed = true; return nil }
-func (r *faultRes) Close() error                                             { return nil }
+func (r *faultRes) WriteValue(distsys.ArchetypeInterface, tla.Value) error {
+	r.armed = true
+	return nil
+}
+func (r *faultRes) Close() error { return nil }
 
 type varRT struct {
 	spec  VarSpec
@@ -321,16 +331,18 @@ const archName = "ASharer"
 
 func perturb(rng *rand.Rand, heavy bool, timeout time.Duration) {
 	x := rng.Intn(100)
-	lim := 25
+	lim := 30
 	if heavy {
-		lim = 45
+		lim = 50
 	}
 	switch {
 	case x < lim:
-		runtime.Gosched()
-	case x < lim+12:
-		time.Sleep(time.Duration(20+rng.Intn(280)) * time.Microsecond)
-	case x < lim+13 && heavy:
+		for n := 1 + rng.Intn(4); n > 0; n-- {
+			runtime.Gosched()
+		}
+	case x < lim+4:
+		time.Sleep(time.Duration(20+rng.Intn(200)) * time.Microsecond)
+	case x < lim+5 && heavy:
 		d := timeout + timeout/4
 		if d > 4*time.Millisecond {
 			d = 4 * time.Millisecond
@@ -437,6 +449,16 @@ func (w *world) body(st *ctxState) func(distsys.ArchetypeInterface) error {
 				}
 			case "a":
 				if err = appendTo(op.V, op.J); err != nil {
+					return err
+				}
+			case "w":
+				h, err := iface.RequireArchetypeResourceRef(fmt.Sprintf("%s.v%d", archName, op.V))
+				if err != nil {
+					return err
+				}
+				id := uid<<4 | wn
+				wn++
+				if err = fail(iface.Write(h, w.indices(op.V, op.J), tla.MakeNumber(id))); err != nil {
 					return err
 				}
 			case "s":
@@ -618,6 +640,8 @@ func initValue(vs VarSpec) tla.Value {
 	switch vs.Kind {
 	case kindAcct:
 		return tla.MakeNumber(100)
+	case kindReg:
+		return tla.MakeNumber(0)
 	case "fn":
 		var dom []tla.Value
 		for j := 1; j <= vs.Cells; j++ {
@@ -657,6 +681,10 @@ func newWorld(c Case, db *badger.DB) (*world, []*distsys.MPCalContext) {
 			rt.cells = []int{len(w.cells)}
 			mc = append(mc, len(w.cells))
 			w.cells = append(w.cells, Cell{Var: v, Kind: kindAcct, Mgr: v, Init: 100})
+		case kindReg:
+			rt.cells = []int{len(w.cells)}
+			mc = append(mc, len(w.cells))
+			w.cells = append(w.cells, Cell{Var: v, Kind: kindReg, Mgr: v})
 		default:
 			rt.cells = []int{len(w.cells)}
 			mc = append(mc, len(w.cells))
@@ -668,7 +696,7 @@ func newWorld(c Case, db *badger.DB) (*world, []*distsys.MPCalContext) {
 	var ctxs []*distsys.MPCalContext
 	for i := 0; i < c.NCtx; i++ {
 		st := &ctxState{idx: i, plan: c.Plans[i], rng: rand.New(rand.NewSource(c.Seed*131 + int64(c.Idx)*17 + int64(i))), lastK: -1, flt: &faultRes{}}
-		st.maxTries = int32(60*len(st.plan) + 2000)
+		st.maxTries = int32(4*len(st.plan) + 60)
 		w.states = append(w.states, st)
 		cfg := []distsys.MPCalContextConfigFn{distsys.EnsureArchetypeRefParam("flt", st.flt)}
 		for v, rt := range w.vars {
@@ -745,7 +773,7 @@ func (w *world) decode(elems []trace.Element) []rawAcc {
 		}
 		val = val.StripVClock()
 		a := rawAcc{w: isW, cell: rt.cells[j]}
-		if rt.spec.Kind == kindAcct {
+		if rt.spec.Kind == kindAcct || rt.spec.Kind == kindReg {
 			a.n = val.AsNumber()
 		} else {
 			a.list = tupleIDs(val)
@@ -758,7 +786,7 @@ func (w *world) decode(elems []trace.Element) []rawAcc {
 func (w *world) decodeState(mgr int, v tla.Value) []rawAcc {
 	rt := w.vars[mgr]
 	switch rt.spec.Kind {
-	case kindAcct:
+	case kindAcct, kindReg:
 		return []rawAcc{{cell: rt.cells[0], n: v.AsNumber()}}
 	case "fn":
 		var out []rawAcc
@@ -824,7 +852,7 @@ func (w *world) buildHistory(secs, aborts []*rawSec, samples []rawSample, final 
 		out := make([]Access, 0, len(as))
 		for _, a := range as {
 			x := Access{W: a.w, C: a.cell}
-			if h.Cells[a.cell].Kind == kindAcct {
+			if h.Cells[a.cell].Kind != kindList {
 				x.N = a.n
 			} else if isPrefix(a.list, h.Cells[a.cell].F) {
 				x.P = len(a.list)
@@ -854,10 +882,12 @@ func (w *world) buildHistory(secs, aborts []*rawSec, samples []rawSample, final 
 // ---- running one case -----------------------------------------------------------------------------------
 
 type DeadlockInfo struct {
-	Ticks        int              `json:"canary_ticks_without_change"`
-	TimeoutMs    int              `json:"tick_period_ms"`
-	Sharers      []map[string]any `json:"sharers"`
-	ProgressSeen int64            `json:"progress_events_before"`
+	BlockedNoTimeout int              `json:"sharers_blocked_without_timeout"`
+	Goroutines       string           `json:"goroutines,omitempty"`
+	Ticks            int              `json:"canary_ticks_without_change"`
+	TimeoutMs        int              `json:"tick_period_ms"`
+	Sharers          []map[string]any `json:"sharers"`
+	ProgressSeen     int64            `json:"progress_events_before"`
 }
 
 type Result struct {
@@ -879,25 +909,137 @@ type Result struct {
 	WallMs      int64         `json:"wall_ms"`
 	SampleSecs  []any         `json:"sample_sections,omitempty"`
 	LeakedLocks []int         `json:"leaked_locks,omitempty"`
+	TimerStalls int           `json:"timer_stalls,omitempty"`
 }
 
 // canary waits exactly the way LocalSharedManager.acquireWithTimeout waits on a taken lock; one return
 // of the canary is one "timeout period of the code" for the deadlock criterion (a counted event).
-func canary(d time.Duration) {
-	full := make(chan struct{}, 1)
-	full <- struct{}{}
-	done := make(chan struct{})
-	go func() {
-		select {
-		case full <- struct{}{}:
-		case <-time.After(d):
-		}
-		close(done)
-	}()
-	<-done
+func canary(d time.Duration) { canaries(1, d) }
+
+// canaries runs n such waits concurrently (one per parked sharer) and returns when all have timed out.
+func canaries(n int, d time.Duration) {
+	if n < 1 {
+		n = 1
+	}
+	var wg sync.WaitGroup
+	for i := 0; i < n; i++ {
+		wg.Add(1)
+		go func() {
+			defer wg.Done()
+			full := make(chan struct{}, 1)
+			full <- struct{}{}
+			select {
+			case full <- struct{}{}:
+			case <-time.After(d):
+			}
+		}()
+	}
+	wg.Wait()
 }
 
-const deadlockTicks = 20
+// preRounds: the H8 deadlock shape must have persisted unchanged across this many canary rounds (each at
+// least one lock-timeout period of the code) before the goroutine states are inspected.
+const preRounds = 5
+
+// deadlockTicks: persistence (in rounds) after which a shape whose sharers wait in the *timed* select is
+// counted as a timer stall of the machine (evidence only).
+const deadlockTicks = 50
+
+type gInfo struct {
+	id     string
+	state  string
+	frames []string
+}
+
+func parseGoroutines(dump string) []gInfo {
+	var out []gInfo
+	for _, blk := range strings.Split(dump, "\n\n") {
+		lines := strings.Split(strings.TrimSpace(blk), "\n")
+		if len(lines) == 0 || !strings.HasPrefix(lines[0], "goroutine ") {
+			continue
+		}
+		hdr := lines[0]
+		g := gInfo{}
+		if i := strings.Index(hdr, "["); i > 0 {
+			g.id = strings.TrimSpace(hdr[len("goroutine "):i])
+			st := hdr[i+1:]
+			if j := strings.IndexAny(st, ",]"); j >= 0 {
+				st = st[:j]
+			}
+			g.state = st
+		}
+		for _, l := range lines[1:] {
+			if !strings.HasPrefix(l, "\t") {
+				g.frames = append(g.frames, l)
+			}
+		}
+		out = append(out, g)
+	}
+	return out
+}
+
+func untimedBlock(state string) bool {
+	switch {
+	case strings.HasPrefix(state, "chan send"), strings.HasPrefix(state, "chan receive"), state == "select (no cases)",
+		strings.HasPrefix(state, "semacquire"), strings.HasPrefix(state, "sync."):
+		return true
+	}
+	return false
+}
+
+func inLocalShared(frames []string, depth int) bool {
+	for i, f := range frames {
+		if i >= depth {
+			break
+		}
+		if strings.Contains(f, "distsys/resources.(*LocalSharedManager).") || strings.Contains(f, "distsys/resources.(*localShared).") {
+			return true
+		}
+	}
+	return false
+}
+
+// sharersBlockedWithoutTimeout inspects the goroutines that run MPCalContext.Run: how many are blocked
+// inside localshared.go in a channel operation without a timeout alternative, and how many wait there
+// in a select (the timed acquisition).
+func sharersBlockedWithoutTimeout() (blocked, timed int, dump string) {
+	dump = allStacks()
+	for _, g := range parseGoroutines(dump) {
+		isSharer := false
+		for _, f := range g.frames {
+			if strings.Contains(f, "distsys.(*MPCalContext).Run") {
+				isSharer = true
+			}
+		}
+		if !isSharer || !inLocalShared(g.frames, 4) {
+			continue
+		}
+		if untimedBlock(g.state) {
+			blocked++
+		} else if g.state == "select" {
+			timed++
+		}
+	}
+	return
+}
+
+// observerBlockedInAcquire: the GetState observer is blocked in the untimed acquire().
+func observerBlockedInAcquire() (bool, string) {
+	dump := allStacks()
+	for _, g := range parseGoroutines(dump) {
+		isObs := false
+		for _, f := range g.frames {
+			if strings.Contains(f, "main.runCase.func") {
+				isObs = true
+			}
+		}
+		if isObs && len(g.frames) >= 2 && strings.Contains(g.frames[0], "(*LocalSharedManager).acquire") &&
+			strings.Contains(g.frames[1], "(*localShared).GetState") && strings.HasPrefix(g.state, "chan send") {
+			return true, dump
+		}
+	}
+	return false, dump
+}
 
 func runCase(c Case, scratch string) *Result {
 	start := time.Now()
@@ -909,7 +1051,7 @@ func runCase(c Case, scratch string) *Result {
 		res.SetupError = "badger: " + err.Error()
 		return res
 	}
-	defer db.Close()
+	// the database is closed on the normal path only: on a hang the sharers are still using it
 	w, ctxs := newWorld(c, db)
 	w.installHooks()
 	maxTO := time.Millisecond
@@ -947,6 +1089,8 @@ func runCase(c Case, scratch string) *Result {
 	// observer: GetState() through its own MakeLocalShared(), as a persistence layer would
 	stopObs := make(chan struct{})
 	obsDone := make(chan struct{})
+	var obsCalls atomic.Int64 // odd while the observer is inside GetState (touched by the observer and main only)
+	var obsMgr atomic.Int32
 	if c.Observer {
 		obsRng := rand.New(rand.NewSource(c.Seed*977 + int64(c.Idx)))
 		var obs []resources.Persistable
@@ -962,7 +1106,10 @@ func runCase(c Case, scratch string) *Result {
 				default:
 				}
 				m := obsRng.Intn(len(obs))
+				obsMgr.Store(int32(m))
+				obsCalls.Add(1)
 				buf, err := obs[m].GetState()
+				obsCalls.Add(1)
 				if err == nil {
 					var v tla.Value
 					if derr := gob.NewDecoder(bytes.NewReader(buf)).Decode(&v); derr == nil {
@@ -983,6 +1130,7 @@ func runCase(c Case, scratch string) *Result {
 	}
 	monCh := make(chan verdict, 1)
 	stopMon := make(chan struct{})
+	var timerStalls atomic.Int64 // H8 shape persisted across deadlockTicks rounds although the sharers wait in the timed select
 	var ticks atomic.Int64
 	if !w.light {
 		go func() {
@@ -991,16 +1139,19 @@ func runCase(c Case, scratch string) *Result {
 			if maxTO < 10*time.Millisecond {
 				stallLimit = 4000
 			}
+			nCanary := 1
 			for {
 				select {
 				case <-stopMon:
 					return
 				default:
 				}
-				canary(maxTO)
+				canaries(nCanary, maxTO)
 				ticks.Add(1)
 				live, allParked := 0, true
 				var sb strings.Builder
+				var heldByParked uint64
+				var waited []int32
 				for _, st := range w.states {
 					if st.finished.Load() {
 						continue
@@ -1009,8 +1160,19 @@ func runCase(c Case, scratch string) *Result {
 					p := st.parked.Load()
 					if p == 0 {
 						allParked = false
+					} else {
+						heldByParked |= st.held.Load()
+						waited = append(waited, st.parkedMgr.Load())
 					}
 					fmt.Fprintf(&sb, "%d:%d;", st.idx, p)
+				}
+				nCanary = live
+				// wait-for shape: every parked sharer waits for a manager that (by the H8 acquire events of
+				// the current attempts) is held by a sharer that is itself parked
+				for _, m := range waited {
+					if heldByParked&(1<<uint(m)) == 0 {
+						allParked = false
+					}
 				}
 				prog := w.progress.Load()
 				if live > 0 && allParked && sb.String() == lastSig && prog == lastProg {
@@ -1024,23 +1186,42 @@ func runCase(c Case, scratch string) *Result {
 					idle = 0
 				}
 				lastSig, lastProg = sb.String(), prog
-				if stable >= deadlockTicks {
-					d := &DeadlockInfo{Ticks: stable, TimeoutMs: int(maxTO / time.Millisecond), ProgressSeen: prog}
-					for _, st := range w.states {
-						if st.finished.Load() {
-							continue
-						}
-						var held []int
-						for m := range w.vars {
-							if st.held.Load()&(1<<uint(m)) != 0 {
-								held = append(held, m)
+				if stable >= preRounds && stable%preRounds == 0 {
+					// The H8 shape has persisted. Decide logically, not by duration: is every running sharer
+					// blocked on the lock channel WITHOUT a timeout alternative (a plain channel operation inside
+					// localshared.go)? Then nobody who could release a lock can ever run again. Sharers that sit
+					// in the timed select are merely late (timer / scheduler stalls of the machine): not decided.
+					blocked, timed, dump := sharersBlockedWithoutTimeout()
+					if blocked == live && timed == 0 {
+						canaries(nCanary, maxTO)
+						blocked2, timed2, _ := sharersBlockedWithoutTimeout()
+						var sb2 strings.Builder
+						for _, st := range w.states {
+							if !st.finished.Load() {
+								fmt.Fprintf(&sb2, "%d:%d;", st.idx, st.parked.Load())
 							}
 						}
-						d.Sharers = append(d.Sharers, map[string]any{"ctx": st.idx, "parked_in_tryEnsureLock_call": st.parked.Load(),
-							"waiting_for_manager": st.parkedMgr.Load(), "holds_managers": held})
+						if blocked2 == live && timed2 == 0 && sb2.String() == lastSig && w.progress.Load() == prog {
+							d := &DeadlockInfo{Ticks: stable, TimeoutMs: int(maxTO / time.Millisecond), ProgressSeen: prog, Goroutines: dump, BlockedNoTimeout: blocked}
+							for _, st := range w.states {
+								if st.finished.Load() {
+									continue
+								}
+								var held []int
+								for m := range w.vars {
+									if st.held.Load()&(1<<uint(m)) != 0 {
+										held = append(held, m)
+									}
+								}
+								d.Sharers = append(d.Sharers, map[string]any{"ctx": st.idx, "parked_in_tryEnsureLock_call": st.parked.Load(),
+									"waiting_for_manager": st.parkedMgr.Load(), "holds_managers": held})
+							}
+							monCh <- verdict{deadlock: d}
+							return
+						}
+					} else if stable == deadlockTicks {
+						timerStalls.Add(1)
 					}
-					monCh <- verdict{deadlock: d}
-					return
 				}
 				if idle >= stallLimit {
 					monCh <- verdict{stalled: fmt.Sprintf("no begin/commit/abort event across %d timeout periods, but not every sharer is parked in tryEnsureLock", idle)}
@@ -1101,6 +1282,7 @@ func runCase(c Case, scratch string) *Result {
 				Witness: map[string]any{"oracle": "run", "error": e}})
 		}
 		res.Ticks = int(ticks.Load())
+		res.TimerStalls = int(timerStalls.Load())
 		res.WallMs = time.Since(start).Milliseconds()
 	}
 
@@ -1110,8 +1292,8 @@ func runCase(c Case, scratch string) *Result {
 		if v.deadlock != nil {
 			res.Deadlock = v.deadlock
 			res.Violations = append(res.Violations, Violation{Key: "C07:deadlock:all-sharers-parked-in-tryEnsureLock",
-				Desc: fmt.Sprintf("every running sharer stayed inside the same tryEnsureLock call, and no section began, committed or aborted, across %d consecutive lock-timeout periods of the code (%d ms each): sections block instead of aborting",
-					v.deadlock.Ticks, v.deadlock.TimeoutMs),
+				Desc: fmt.Sprintf("every running sharer (%d) is blocked inside tryEnsureLock in a channel operation that has no timeout alternative, each waiting for a variable held by another such sharer (H8 shape unchanged across %d lock-timeout periods of %d ms, no section began, committed or aborted): sections block forever instead of aborting",
+					v.deadlock.BlockedNoTimeout, v.deadlock.Ticks, v.deadlock.TimeoutMs),
 				Witness: map[string]any{"oracle": "deadlock", "deadlock": v.deadlock}})
 		} else {
 			res.Stalled = v.stalled
@@ -1122,22 +1304,67 @@ func runCase(c Case, scratch string) *Result {
 	close(stopMon)
 	close(stopObs)
 
-	// final phase: nobody is running a section any more. Guarded by canary ticks because a leaked lock
-	// would make it block.
+	// final phase: nobody is running a section any more.
+	leak := func(mgrs []int, how string) *Result {
+		res.LeakedLocks = mgrs
+		res.Violations = append(res.Violations, Violation{Key: "C07:lock-held-by-no-section",
+			Desc:    fmt.Sprintf("after every sharer finished, the lock of manager(s) %v is still taken (%s): a finished section left it taken", mgrs, how),
+			Witness: map[string]any{"oracle": "leak", "managers": mgrs, "how": how}})
+		finish(false, nil)
+		return res
+	}
+	// 1. the observer must stop first (it is the only other party that may legitimately hold a lock).
+	//    GetState blocks without a timeout, so a leaked lock parks it for good. Decided logically: if the
+	//    observer is blocked in the untimed acquire() although no section is running and nothing else
+	//    exists that could release a lock, the lock was left taken. A slow / not yet scheduled observer is
+	//    merely waited for (bounded in canary rounds, then inconclusive).
+	stopped := false
+	for i := 0; i < 40*preRounds && !stopped; i++ {
+		select {
+		case <-obsDone:
+			stopped = true
+		default:
+			canary(maxTO)
+			if i%preRounds == preRounds-1 {
+				if b1, _ := observerBlockedInAcquire(); b1 {
+					c0 := obsCalls.Load()
+					canary(maxTO)
+					if b2, dump := observerBlockedInAcquire(); b2 && obsCalls.Load() == c0 && c0%2 == 1 {
+						r := leak([]int{int(obsMgr.Load())}, "the observer's GetState() is blocked in the untimed acquire() although no section is running and nothing else could release the lock")
+						r.Violations[len(r.Violations)-1].Witness["goroutines"] = dump
+						return r
+					}
+				}
+			}
+		}
+	}
+	if !stopped {
+		select {
+		case <-obsDone:
+			stopped = true
+		default:
+		}
+	}
+	if !stopped {
+		res.Stalled = "the GetState observer did not stop (not blocked in acquire: machine stall)"
+		finish(false, nil)
+		return res
+	}
+	// 2. with the observer gone nobody can hold a lock: the code's own timed acquisition has to succeed.
+	//    Guarded by canary rounds because a mutated acquisition might block.
 	type finalOut struct {
 		vals   []tla.Value
 		leaked []int
 	}
 	finCh := make(chan finalOut, 1)
 	go func() {
-		<-obsDone
 		var out finalOut
 		iface := distsys.NewMPCalContextWithoutArchetype().IFace()
 		for m, v := range w.vars {
 			fin := v.mgr.MakeLocalShared()
 			var val tla.Value
 			var err error
-			for try := 0; try < deadlockTicks; try++ {
+			for try := 0; try < 3; try++ {
 				val, err = fin.ReadValue(iface)
 				if err == nil {
 					break
@@ -1145,19 +1372,16 @@ func runCase(c Case, scratch string) *Result {
 			}
 			if err != nil {
 				out.leaked = append(out.leaked, m)
-				out.vals = nil
 				continue
 			}
 			fin.Abort(iface)
-			if out.leaked == nil {
-				out.vals = append(out.vals, val.StripVClock())
-			}
+			out.vals = append(out.vals, val.StripVClock())
 		}
 		finCh <- out
 	}()
 	guard := make(chan struct{})
 	go func() {
-		for i := 0; i < 50*deadlockTicks*len(w.vars)+2000; i++ {
+		for i := 0; i < 6*len(w.vars)+8*deadlockTicks; i++ {
 			canary(maxTO)
 		}
 		close(guard)
@@ -1165,19 +1389,22 @@ func runCase(c Case, scratch string) *Result {
 	select {
 	case out := <-finCh:
 		if len(out.leaked) > 0 {
-			res.LeakedLocks = out.leaked
-			res.Violations = append(res.Violations, Violation{Key: "C07:lock-held-by-no-section",
-				Desc:    fmt.Sprintf("after every sharer finished, the lock of manager(s) %v could not be acquired in %d consecutive attempts with the code's own timeout: a finished section left it taken", out.leaked, deadlockTicks),
-				Witness: map[string]any{"oracle": "leak", "managers": out.leaked}})
-			finish(false, nil)
-			return res
+			return leak(out.leaked, "3 consecutive acquisitions with the code's own timeout failed although no sharer and no observer exists any more")
 		}
 		finish(true, out.vals)
+		_ = db.Close()
 	case <-guard:
 		res.Stalled = "final read of the shared variables did not return"
 		finish(false, nil)
 	}
 	return res
+}
+
+// allStacks returns a dump of every goroutine (for witnesses of hangs), trimmed.
+func allStacks() string {
+	buf := make([]byte, 1<<18)
+	buf = buf[:runtime.Stack(buf, true)]
+	return string(buf)
 }
 
 func firstLine(s string) string {
